@@ -3,24 +3,29 @@
 //   (machine arithmetic read as exact real arithmetic: "equal up to the rounding of one scale/unscale round trip" becomes
 //   "equal"; the size of that rounding is NOT quantified here).
 //
-// Both functions are STATEMENT SLICES under hand-written headers (DESIGN 10.1):
-//   save_to_file  : statements `let dinv = ..` .. `json_data.b.hadamard(einv);`
-//       header   : `&self` is the stand-in `DefaultSolver<F> { data }` below (the real one is `Solver<D,V,R,K,C,I,SO,SE>`, only
+// Two STATEMENT SLICES under hand-written headers (DESIGN 10.1) and two functions extracted whole:
+//   save_to_file  (as save_to_file_unscale): statements `let dinv = ..` .. `json_data.b.hadamard(..);`
+//       header   : `&self` is the stand-in `DefaultSolver<F> { data }` below (the real one is `Solver<D,V,R,K,C,I,SO,SE>`; only
 //                  `self.data.equilibration` is read); `json_data` is a `&mut` parameter instead of the local that the dropped
 //                  first statement builds.
-//       DROPPED  : (1) `let mut json_data = JsonProblemData { P: self.data.P.clone(), .. }` - that json_data starts as a copy of the
-//                  internal data is therefore an assumption of the composition lemma (hypothesis `rel_*` is stated about the
-//                  value json_data has on entry); (2) `sanitize_settings(&mut json_data.settings)` (extracted whole below,
-//                  and covered by the Kani harnesses of kani/json.rs); (3) `serde_json::to_string`, `file.write_all`, `Ok(())`.
-//   load_from_file: statements `desanitize_settings(..)` .. `let settings = settings.unwrap_or(json_data.settings);`
-//       header   : `json_data` by value (it is the local produced by the dropped `serde_json::from_str`), `settings` as in the
+//       DROPPED  : (1) `let mut json_data = JsonProblemData { P: self.data.P.clone(), .. }`: that json_data starts as a copy of the
+//                  internal data is an assumption of the composition lemma (its hypotheses `rel_*` speak about the value
+//                  json_data has on entry); (2) the call `sanitize_settings(&mut json_data.settings)` (the callee is verified
+//                  below); (3) `serde_json::to_string`, `file.write_all`, `Ok(())`.
+//   load_from_file (as load_from_file_settings): statements `desanitize_settings(..)` .. `let settings = settings.unwrap_or(..);`
+//       header   : `json_data` by value (the local produced by the dropped `serde_json::from_str`), `settings` as in the
 //                  original; the slice ends in a `let`, so the extractor appends the bracketed trailing expression `settings`
-//                  (and the header names that type as return type) to make the chosen settings visible to the contract.
-//       DROPPED  : reading the file, `serde_json::from_str`, `Self::new(&P, &q, &A, &b, &cones, settings)`, `Ok(solver)`.
-// Stand-ins written by hand: `DefaultSolver` (one field), nothing else.  `JsonProblemData`, `DefaultProblemData`,
+//                  (and the header names its type as return type) to make the chosen settings visible to the contract.
+//       DROPPED  : reading the file, `serde_json::from_str`, `Self::new(&P, &q, &A, &b, &cones, settings)`, `Ok(solver)`; that
+//                  P, q, A, b, cones reach `Self::new` unchanged is visible in the kept text (five moves) but not in the contract.
+//   sanitize_settings, desanitize_settings: whole bodies (rule R1f: f64 -> F; `f64::INFINITY` / `f64::MAX` become the
+//                  hand-written associated constants `F::INFINITY` / `F::MAX`; `==` is the float symbol f_eq).
+// Stand-ins written by hand: `DefaultSolver` (one field), `F::INFINITY`, `F::MAX`.  `JsonProblemData`, `DefaultProblemData`,
 // `DefaultEquilibrationData`, `DefaultSettings`, `SupportedConeT`, `CscMatrix` are extracted from the real declarations.
 // ASSUMED: the VectorMath kernels `hadamard` / `scale` (prelude/vecmath_assumed.rs: discharged in unit `vecmath`), the float
-//   preludes.  `lrscale`, `scale` of CscMatrix are re-verified here from their real bodies (units/inc/csc_scalings.rs).
+//   preludes, `Option::unwrap_or` (vstd).  `lrscale`, `scale` of CscMatrix are re-verified here from their real bodies
+//   (units/inc/csc_scalings.rs).  The lemma's hypothesis `inv_of` (dinv = 1/d, einv = 1/e) is what `equilibrate` computes
+//   (`dinv.scalarop_from(T::recip, d)`) but NOT part of the contract it currently exports in unit csc_math.
 use vstd::prelude::*;
 verus! {
 //@include prelude/float_opaque.rs
